@@ -638,5 +638,317 @@ theorem bw_hole_order_independent {K : Type} [Field K] [LinearOrder K] [IsStrict
 
 example : polygon [(0, 1, 2), (2, 1, 3)] = [(0, 1), (2, 0), (1, 3), (3, 2)] := by decide
 
+/-! ### order independence of the whole run; the Delaunay and winding invariants under named geometric hypotheses -/
+
+section Order
+variable {R : Type} [CommRing R] [LinearOrder R] [IsStrictOrderedRing R]
+
+theorem contains_iff_mem (l : List Tri) (t : Tri) : l.contains t = true ↔ t ∈ l := by
+  simp
+
+theorem mem_insertTri_iff {t u : Tri} {tris : List Tri} : u ∈ insertTri t tris ↔ u = t ∨ u ∈ tris := by
+  unfold insertTri
+  split
+  · rename_i h
+    have ht : t ∈ tris := by simpa using h
+    constructor
+    · exact fun h => Or.inr h
+    · rintro (rfl | h)
+      · exact ht
+      · exact h
+  · simp only [List.mem_append, List.mem_singleton]
+    tauto
+
+theorem insertTri_nodup {t : Tri} {tris : List Tri} (h : tris.Nodup) : (insertTri t tris).Nodup := by
+  unfold insertTri
+  split
+  · exact h
+  · rename_i hc
+    have ht : t ∉ tris := by simpa using hc
+    exact List.Nodup.append h (List.nodup_singleton t) (by
+      intro a ha hb
+      simp only [List.mem_singleton] at hb
+      subst hb; exact ht ha)
+
+/-- `fillHole` as a set: the old triangles plus the fan triangle of every boundary edge not touching the point;
+    and it keeps the list duplicate-free -/
+theorem fillHole_spec (P : Nat → Pt R) (pi : Nat) (poly : List Edge) :
+    ∀ tris : List Tri, tris.Nodup →
+      (fillHole P poly pi tris).Nodup ∧
+      ∀ t, t ∈ fillHole P poly pi tris ↔
+        t ∈ tris ∨ ∃ e ∈ poly, (e.1 == pi || e.2 == pi) = false ∧ t = fanTri P e pi := by
+  induction poly with
+  | nil => intro tris h; simp [fillHole, h]
+  | cons e es ih =>
+    intro tris h
+    simp only [fillHole, List.foldl_cons]
+    by_cases hc : (e.1 == pi || e.2 == pi) = true
+    · simp only [hc, if_true]
+      obtain ⟨h1, h2⟩ := ih tris h
+      refine ⟨h1, fun t => ?_⟩
+      have := h2 t
+      simp only [fillHole] at this
+      rw [this]
+      constructor
+      · rintro (ht | ⟨e', he', hn, rfl⟩)
+        · exact Or.inl ht
+        · exact Or.inr ⟨e', List.mem_cons_of_mem _ he', hn, rfl⟩
+      · rintro (ht | ⟨e', he', hn, rfl⟩)
+        · exact Or.inl ht
+        · rcases List.mem_cons.mp he' with rfl | he'
+          · rw [hc] at hn; cases hn
+          · exact Or.inr ⟨e', he', hn, rfl⟩
+    · have hc' : (e.1 == pi || e.2 == pi) = false := by simpa using hc
+      simp only [hc', Bool.false_eq_true, if_false]
+      obtain ⟨h1, h2⟩ := ih (insertTri (fanTri P e pi) tris) (insertTri_nodup h)
+      refine ⟨h1, fun t => ?_⟩
+      have := h2 t
+      simp only [fillHole] at this
+      rw [this, mem_insertTri_iff]
+      constructor
+      · rintro ((rfl | ht) | ⟨e', he', hn, rfl⟩)
+        · exact Or.inr ⟨e, List.mem_cons_self .., hc', rfl⟩
+        · exact Or.inl ht
+        · exact Or.inr ⟨e', List.mem_cons_of_mem _ he', hn, rfl⟩
+      · rintro (ht | ⟨e', he', hn, rfl⟩)
+        · exact Or.inl (Or.inr ht)
+        · rcases List.mem_cons.mp he' with rfl | he'
+          · exact Or.inl (Or.inl rfl)
+          · exact Or.inr ⟨e', he', hn, rfl⟩
+
+/-- one insertion step as a set -/
+theorem step_spec (P : Nat → Pt R) (env : List Tri → List Tri) (henv : ∀ l, (env l).Perm l)
+    (tris : List Tri) (hn : tris.Nodup) (pi : Nat) :
+    (step P env tris pi).Nodup ∧
+    ∀ t, t ∈ step P env tris pi ↔
+      (t ∈ tris ∧ insideCirc P t (P pi) = false) ∨
+      ∃ e ∈ polygon (tris.filter (fun t => insideCirc P t (P pi))),
+        (e.1 == pi || e.2 == pi) = false ∧ t = fanTri P e pi := by
+  have hbadp : (badTris P env tris pi).Perm (tris.filter (fun t => insideCirc P t (P pi))) :=
+    (henv tris).filter _
+  have hbadn : (badTris P env tris pi).Nodup := ((henv tris).nodup_iff.mpr hn).filter _
+  unfold step
+  obtain ⟨h1, h2⟩ := fillHole_spec P pi (polygon (badTris P env tris pi))
+    (tris.filter (fun t => !(badTris P env tris pi).contains t)) (hn.filter _)
+  refine ⟨h1, fun t => ?_⟩
+  rw [h2 t]
+  have hk : t ∈ tris.filter (fun t => !(badTris P env tris pi).contains t) ↔
+      (t ∈ tris ∧ insideCirc P t (P pi) = false) := by
+    simp only [List.mem_filter, Bool.not_eq_true', List.contains_eq_mem, decide_eq_false_iff_not]
+    rw [hbadp.mem_iff]
+    simp only [List.mem_filter, not_and, Bool.not_eq_true]
+    constructor
+    · rintro ⟨a, b⟩; exact ⟨a, b a⟩
+    · rintro ⟨a, b⟩; exact ⟨a, fun _ => b⟩
+  rw [hk]
+  constructor
+  · rintro (h | ⟨e, he, hc, rfl⟩)
+    · exact Or.inl h
+    · exact Or.inr ⟨e, (bw_polygon_order_independent hbadp hbadn e).mp he, hc, rfl⟩
+  · rintro (h | ⟨e, he, hc, rfl⟩)
+    · exact Or.inl h
+    · exact Or.inr ⟨e, (bw_polygon_order_independent hbadp hbadn e).mpr he, hc, rfl⟩
+
+/-- one step from permuted states with two enumerations gives permuted states -/
+theorem step_perm (P : Nat → Pt R) (env env' : List Tri → List Tri)
+    (henv : ∀ l, (env l).Perm l) (henv' : ∀ l, (env' l).Perm l)
+    (tris tris' : List Tri) (hn : tris.Nodup) (hp : tris.Perm tris') (pi : Nat) :
+    (step P env tris pi).Nodup ∧ (step P env tris pi).Perm (step P env' tris' pi) := by
+  have hn' : tris'.Nodup := hp.nodup_iff.mp hn
+  obtain ⟨a1, a2⟩ := step_spec P env henv tris hn pi
+  obtain ⟨b1, b2⟩ := step_spec P env' henv' tris' hn' pi
+  refine ⟨a1, (List.perm_ext_iff_of_nodup a1 b1).mpr (fun t => ?_)⟩
+  rw [a2 t, b2 t]
+  have hf : (tris.filter (fun t => insideCirc P t (P pi))).Perm (tris'.filter (fun t => insideCirc P t (P pi))) :=
+    hp.filter _
+  have hfn : (tris.filter (fun t => insideCirc P t (P pi))).Nodup := hn.filter _
+  constructor
+  · rintro (⟨h1, h2⟩ | ⟨e, he, hc, rfl⟩)
+    · exact Or.inl ⟨hp.mem_iff.mp h1, h2⟩
+    · exact Or.inr ⟨e, (bw_polygon_order_independent hf hfn e).mp he, hc, rfl⟩
+  · rintro (⟨h1, h2⟩ | ⟨e, he, hc, rfl⟩)
+    · exact Or.inl ⟨hp.mem_iff.mpr h1, h2⟩
+    · exact Or.inr ⟨e, (bw_polygon_order_independent hf hfn e).mpr he, hc, rfl⟩
+
+theorem loop_perm (P : Nat → Pt R) (env env' : List Tri → List Tri)
+    (henv : ∀ l, (env l).Perm l) (henv' : ∀ l, (env' l).Perm l) (l : List Nat) :
+    ∀ tris tris' : List Tri, tris.Nodup → tris.Perm tris' →
+      (l.foldl (step P env) tris).Nodup ∧ (l.foldl (step P env) tris).Perm (l.foldl (step P env') tris') := by
+  induction l with
+  | nil => intro tris tris' hn hp; exact ⟨hn, hp⟩
+  | cons pi l ih =>
+    intro tris tris' hn hp
+    simp only [List.foldl_cons]
+    obtain ⟨s1, s2⟩ := step_perm P env env' henv henv' tris tris' hn hp pi
+    exact ih _ _ s1 s2
+
+/-- **bw_order_independent**: the triangle set Bowyer–Watson ends with does not depend on Go's map iteration order.
+    For ANY two enumerations (each a permutation at every use), every point function and every `n`, the final states
+    of the insertion loop — and the outputs after removing the super-triangle's triangles — are duplicate-free and
+    permutations of each other, as lists of index TRIPLES (the corner order of each triangle included: it is fixed by
+    the directed boundary edge and the winding fix-up, not by the enumeration). -/
+theorem bw_order_independent (P : Nat → Pt R) (env env' : List Tri → List Tri)
+    (henv : ∀ l, (env l).Perm l) (henv' : ∀ l, (env' l).Perm l) (n : Nat) :
+    (bwLoop P env n).Perm (bwLoop P env' n) ∧ (bw P env n).Nodup ∧ (bw P env n).Perm (bw P env' n) := by
+  obtain ⟨h1, h2⟩ := loop_perm P env env' henv henv' (List.range n) [(n, n + 1, n + 2)] [(n, n + 1, n + 2)]
+    (List.nodup_singleton _) (List.Perm.refl _)
+  exact ⟨h2, h1.filter _, h2.filter _⟩
+
+end Order
+
+/-- the public entry point: two runs with different map orders return permutations of one another -/
+theorem bowyerWatson_order_independent {K : Type} [Field K] [LinearOrder K] [IsStrictOrderedRing K]
+    (env env' : List Tri → List Tri) (henv : ∀ l, (env l).Perm l) (henv' : ∀ l, (env' l).Perm l)
+    (pts : List (Pt K)) :
+    match bowyerWatson env pts, bowyerWatson env' pts with
+    | some a, some b => a.Nodup ∧ a.Perm b
+    | none, none => True
+    | _, _ => False := by
+  match pts with
+  | [] => simp [bowyerWatson]
+  | [_] => simp [bowyerWatson]
+  | [_, _] => simp [bowyerWatson]
+  | p :: q :: r :: rest =>
+    simp only [bowyerWatson]
+    have := bw_order_independent (pointFn p (q :: r :: rest)) env env' henv henv' (p :: q :: r :: rest).length
+    exact ⟨this.2.1, this.2.2⟩
+
+section Fan
+variable {R : Type} [CommRing R] [LinearOrder R] [IsStrictOrderedRing R]
+
+/-- the state of the triangulation after the first `k` insertions -/
+def stateAt (P : Nat → Pt R) (env : List Tri → List Tri) (n k : Nat) : List Tri :=
+  (List.range k).foldl (step P env) [(n, n + 1, n + 2)]
+
+theorem stateAt_succ (P : Nat → Pt R) (env : List Tri → List Tri) (n k : Nat) :
+    stateAt P env n (k + 1) = step P env (stateAt P env n k) k := by
+  simp [stateAt, List.range_succ, List.foldl_append]
+
+theorem stateAt_n (P : Nat → Pt R) (env : List Tri → List Tri) (n : Nat) : stateAt P env n n = bwLoop P env n := rfl
+
+theorem stateAt_nodup (P : Nat → Pt R) (env : List Tri → List Tri) (henv : ∀ l, (env l).Perm l) (n k : Nat) :
+    (stateAt P env n k).Nodup :=
+  (loop_perm P env env henv henv (List.range k) _ _ (List.nodup_singleton _) (List.Perm.refl _)).1
+
+/-- a corner of a triangle is never strictly inside its circumcircle: the determinant vanishes -/
+theorem inCircleDet_corner (a b c : Pt R) :
+    inCircleDet a b c a = 0 ∧ inCircleDet a b c b = 0 ∧ inCircleDet a b c c = 0 := by
+  refine ⟨?_, ?_, ?_⟩ <;> simp only [inCircleDet] <;> ring
+
+/-- THE GEOMETRIC HYPOTHESIS `FanEmpty` (not proved): whenever point `k` is inserted, the new fan triangle over each
+    boundary edge of the cavity has none of the EARLIER points strictly inside its circumcircle.  It speaks about the
+    states the loop actually reaches. -/
+def FanEmpty (P : Nat → Pt R) (env : List Tri → List Tri) (n : Nat) : Prop :=
+  ∀ k < n, ∀ e ∈ polygon ((stateAt P env n k).filter (fun t => insideCirc P t (P k))),
+    (e.1 == k || e.2 == k) = false → ∀ j < k, insideCirc P (fanTri P e k) (P j) = false
+
+/-- THE GEOMETRIC HYPOTHESIS `FanPositive` (not proved): the inserted point lies strictly on the inner side (clockwise
+    convention: `orient < 0`) of every directed boundary edge of its cavity — the cavity is strictly star-shaped around it. -/
+def FanPositive (P : Nat → Pt R) (env : List Tri → List Tri) (n : Nat) : Prop :=
+  ∀ k < n, ∀ e ∈ polygon ((stateAt P env n k).filter (fun t => insideCirc P t (P k))),
+    (e.1 == k || e.2 == k) = false → orient (P e.1) (P e.2) (P k) < 0
+
+/-- the Delaunay invariant of the insertion loop, given `FanEmpty`: after `k` insertions no triangle of the state
+    has one of the first `k` points strictly inside its circumcircle (`det < 0`) -/
+theorem delaunay_inv_of_fanEmpty (P : Nat → Pt R) (env : List Tri → List Tri) (henv : ∀ l, (env l).Perm l) (n : Nat)
+    (hfan : FanEmpty P env n) :
+    ∀ k ≤ n, ∀ t ∈ stateAt P env n k, ∀ j < k, insideCirc P t (P j) = false := by
+  intro k
+  induction k with
+  | zero => intro _ t _ j hj; omega
+  | succ k ih =>
+    intro hk t ht j hj
+    rw [stateAt_succ] at ht
+    have hspec := (step_spec P env henv (stateAt P env n k) (stateAt_nodup P env henv n k) k).2 t
+    rcases hspec.mp ht with ⟨hold, hkeep⟩ | ⟨e, he, hc, rfl⟩
+    · rcases Nat.lt_succ_iff_lt_or_eq.mp hj with hlt | rfl
+      · exact ih (by omega) t hold j hlt
+      · exact hkeep
+    · rcases Nat.lt_succ_iff_lt_or_eq.mp hj with hlt | rfl
+      · exact hfan k (by omega) e he hc j hlt
+      · -- the inserted point is a corner of its own fan triangle
+        simp only [insideCirc, decide_eq_false_iff_not, not_lt]
+        unfold fanTri
+        split
+        · exact le_of_eq (inCircleDet_corner _ _ _).2.1.symm
+        · exact le_of_eq (inCircleDet_corner _ _ _).2.2.symm
+
+/-- **bw_delaunay_of_fanEmpty**: under `FanEmpty`, no output triangle (indeed no triangle of the final state, those touching
+    the super-triangle included) has an input point strictly inside its circumcircle — for every enumeration order -/
+theorem bw_delaunay_of_fanEmpty (P : Nat → Pt R) (env : List Tri → List Tri) (henv : ∀ l, (env l).Perm l) (n : Nat)
+    (hfan : FanEmpty P env n) :
+    ∀ t ∈ bw P env n, ∀ j < n, ¬ inCircleDet (P t.1) (P t.2.1) (P t.2.2) (P j) < 0 := by
+  intro t ht j hj
+  have hl : t ∈ stateAt P env n n := (List.mem_filter.mp ht).1
+  have := delaunay_inv_of_fanEmpty P env henv n hfan n le_rfl t hl j hj
+  simpa [insideCirc] using this
+
+/-- the winding invariant, strict, given `FanPositive`: every triangle of every state is strictly clockwise
+    (one winding, positive area) if the super-triangle is -/
+theorem winding_inv_of_fanPositive (P : Nat → Pt R) (env : List Tri → List Tri) (henv : ∀ l, (env l).Perm l) (n : Nat)
+    (hsuper : orient (P n) (P (n + 1)) (P (n + 2)) < 0) (hfan : FanPositive P env n) :
+    ∀ k ≤ n, ∀ t ∈ stateAt P env n k, orient (P t.1) (P t.2.1) (P t.2.2) < 0 := by
+  intro k
+  induction k with
+  | zero =>
+    intro _ t ht
+    simp only [stateAt, List.range_zero, List.foldl_nil, List.mem_singleton] at ht
+    subst ht; exact hsuper
+  | succ k ih =>
+    intro hk t ht
+    rw [stateAt_succ] at ht
+    have hspec := (step_spec P env henv (stateAt P env n k) (stateAt_nodup P env henv n k) k).2 t
+    rcases hspec.mp ht with ⟨hold, _⟩ | ⟨e, he, hc, rfl⟩
+    · exact ih (by omega) t hold
+    · have hpos := hfan k (by omega) e he hc
+      have hnot : ccw P (e.1, e.2, k) = false := by
+        simp only [ccw, decide_eq_false_iff_not, not_lt]; exact hpos.le
+      simp only [fanTri, hnot, Bool.false_eq_true, if_false]
+      exact hpos
+
+/-- **bw_strict_winding_of_fanPositive**: under `FanPositive` every output triangle is strictly clockwise -/
+theorem bw_strict_winding_of_fanPositive (P : Nat → Pt R) (env : List Tri → List Tri) (henv : ∀ l, (env l).Perm l)
+    (n : Nat) (hsuper : orient (P n) (P (n + 1)) (P (n + 2)) < 0) (hfan : FanPositive P env n) :
+    ∀ t ∈ bw P env n, orient (P t.1) (P t.2.1) (P t.2.2) < 0 := by
+  intro t ht
+  exact winding_inv_of_fanPositive P env henv n hsuper hfan n le_rfl t (List.mem_filter.mp ht).1
+
+/-- with both hypotheses: the empty-circumcircle clause in its geometric form -/
+theorem bw_empty_circumcircles (P : Nat → Pt R) (env : List Tri → List Tri) (henv : ∀ l, (env l).Perm l) (n : Nat)
+    (hsuper : orient (P n) (P (n + 1)) (P (n + 2)) < 0) (hpos : FanPositive P env n) (hemp : FanEmpty P env n) :
+    ∀ t ∈ bw P env n, ∀ j < n, ¬ StrictlyInsideCircumcircle (P t.1) (P t.2.1) (P t.2.2) (P j) := by
+  intro t ht j hj hin
+  exact bw_delaunay_of_fanEmpty P env henv n hemp t ht j hj
+    (inCircle_neg_of_inside _ _ _ _ (bw_strict_winding_of_fanPositive P env henv n hsuper hpos t ht) hin)
+
+end Fan
+
+/-- three input points and a clockwise super-triangle around them, over ℤ -/
+def exP : Nat → Pt ℤ := fun i => [((0 : ℤ), (0 : ℤ)), (4, 1), (1, 3), (-100, -10), (2, 200), (100, -10)].getD i (0, 0)
+
+example : orient (exP 3) (exP 4) (exP 5) < 0 := by decide
+example : FanPositive exP id 3 := by unfold FanPositive; decide
+example : FanEmpty exP id 3 := by unfold FanEmpty; decide
+example : bw exP id 3 = [(1, 0, 2)] := by decide
+
+/-- the executable forms (run by the driver on the model's own states, exact arithmetic) decide the two hypotheses -/
+theorem fanPositive_check_sound {R : Type} [CommRing R] [LinearOrder R] [IsStrictOrderedRing R]
+    (P : Nat → Pt R) (n : Nat) (h : fanPositiveOk P n = true) : FanPositive P id n := by
+  intro k hk e he hc
+  have h1 := (List.all_eq_true.mp h) k (List.mem_range.mpr hk)
+  have h2 := (List.all_eq_true.mp h1) e he
+  simpa [hc] using h2
+
+theorem fanEmpty_check_sound {R : Type} [CommRing R] [LinearOrder R] [IsStrictOrderedRing R]
+    (P : Nat → Pt R) (n : Nat) (h : fanEmptyOk P n = true) : FanEmpty P id n := by
+  intro k hk e he hc j hj
+  have h1 := (List.all_eq_true.mp h) k (List.mem_range.mpr hk)
+  have h2 := (List.all_eq_true.mp h1) e he
+  simp only [hc, Bool.false_or] at h2
+  have h3 := (List.all_eq_true.mp h2) j (List.mem_range.mpr hj)
+  simpa using h3
+
+example : fanPositiveOk exP 3 = true ∧ fanEmptyOk exP 3 = true := by decide
+
 end C20
 end PolyVerif
